@@ -84,3 +84,118 @@ def slice_core(size: int, start: int, stop: int, step: int, idx: int) -> str:
     if reg is not r or i != ref[idx]:
         return f"resolved to {reg.name}[{i}], expected r[{ref[idx]}] for {what}"
     return ""
+
+
+# ---------------------------------------------------------------------------------------
+# pipeline family: programs through build -> fill_in_let(overrides) -> emulator
+
+def c14_pipeline(tname: str, mask: int, o0: int, o1: int, **leaves) -> str:
+    """A template program over the native gate set, with an override dictionary, is pushed through every
+    stage up to emulation.  If the reference says some reference cannot be honoured (index outside its
+    register or alias, slice outside its source, index applied to a non-register, undefined name, wrong
+    arity, value that becomes invalid by override or macro substitution), some stage must raise JaqalError
+    -- no other exception type and no result."""
+    from jaqalpaq.core.circuitbuilder import build
+    from jaqalpaq.core.algorithm import fill_in_let
+    from jaqalpaq.run import run_jaqal_circuit
+    from .common import program, try_ref, concretely
+    from .passes import _overrides
+    from .gates import NATIVE, wrap_for_emulator
+    from .walk import _raw_tree_ov, _par_collision, _has_repeated_qubit
+    sx = wrap_for_emulator(program(tname, leaves))
+    ov = _overrides(sx, mask, o0, o1)
+    ref, why = try_ref(sx, ov)
+    stage = "build"
+    try:
+        c = build(sx, inject_pulses=NATIVE)
+        stage = "fill_in_let"
+        c1 = fill_in_let(c, override_dict=ov) if ov else c
+        stage = "run"
+        res = run_jaqal_circuit(c1)
+    except JaqalError as ex:
+        if ref is None:
+            return "~rejected"
+        if stage == "build" and ov and try_ref(sx, {})[0] is None:
+            return "~rejected (invalid with the declared values; only the override would make it valid)"
+        size = None
+        for st in sx[1:]:
+            if st[0] == "register":
+                size = st[2]
+        if concretely(_has_repeated_qubit, ref):
+            return "~rejected (repeated qubit argument)"
+        try:
+            rt = concretely(_raw_tree_ov, sx, ov)
+            allq = [(q[1], q[2]) for q in []]
+            env_regs = [st for st in sx[1:] if st[0] == "register"]
+            n = env_regs[0][2]
+            n = ov.get(n, None) if isinstance(n, str) and n in ov else (next(s[2] for s in sx[1:] if s[0] == "let" and s[1] == n) if isinstance(n, str) else n)
+            if concretely(_par_collision, rt, [(env_regs[0][1], q) for q in range(int(n))]):
+                return "~rejected (overlapping parallel branches)"
+        except Exception:
+            pass
+        return f"valid program rejected at {stage}: {ex} :: {sx} {ov}"
+    except Exception as ex:
+        return f"non-JaqalError escaped at {stage}: {_exc(ex)} :: {sx} {ov}"
+    if ref is None:
+        return f"program with a reference that cannot be honoured ({why}) was executed :: {sx} {ov}"
+    return ""
+
+
+def _install_pulse_modules(defs_a, defs_b):
+    import sys
+    import types
+    for name, defs in (("vf_pulses_a", defs_a), ("vf_pulses_b", defs_b)):
+        m = types.ModuleType(name)
+        m.jaqal_gates = types.SimpleNamespace(ALL_GATES=defs)
+        sys.modules[name] = m
+
+
+def c14_gatesets(inj: int, ma: int, mb: int, nargs: int, other: bool) -> str:
+    """Gate gx is defined (with arity inj-1 / ma-1 / mb-1, 0 meaning 'not defined') by the injected set, by
+    the earlier import A and by the later import B.  Precedence injected > later import > earlier import
+    decides which arity a call must have; with a native gate set in force an undefined gate is rejected."""
+    from jaqalpaq.core.circuitbuilder import build
+    from jaqalpaq.core.gatedef import GateDefinition, BusyGateDefinition
+    from jaqalpaq.core.parameter import Parameter, ParamType
+
+    def gd(arity, tag):
+        return GateDefinition("gx", [Parameter(f"{tag}{k}", ParamType.QUBIT) for k in range(arity)])
+
+    base = {"prepare_all": BusyGateDefinition("prepare_all"), "measure_all": BusyGateDefinition("measure_all")}
+    da = dict(base)
+    db = {}
+    if ma:
+        da["gx"] = gd(ma - 1, "a")
+    if mb:
+        db["gx"] = gd(mb - 1, "b")
+    injected = None
+    if inj:
+        injected = {"gx": gd(inj - 1, "i")}
+    _install_pulse_modules(da, db)
+    name = "gy" if other else "gx"
+    sx = ["circuit", ["usepulses", "vf_pulses_a", "*"], ["usepulses", "vf_pulses_b", "*"], ["register", "r", 3],
+          ["gate", name] + [("array_item", "r", k) for k in range(nargs)]]
+    if inj:
+        win, src = inj - 1, "injected"
+    elif mb:
+        win, src = mb - 1, "later import"
+    elif ma:
+        win, src = ma - 1, "earlier import"
+    else:
+        win, src = None, None
+    want = (not other) and win is not None and win == nargs
+    try:
+        c = build(sx, inject_pulses=injected, autoload_pulses=True)
+    except JaqalError:
+        return f"call with {nargs} arguments rejected although {src} defines gx with arity {win}" if want else "~rejected"
+    except Exception as ex:
+        return f"non-JaqalError escaped: {_exc(ex)} :: inj={inj} a={ma} b={mb} nargs={nargs}"
+    if not want:
+        return f"call {name} with {nargs} arguments accepted; winning definition: {src} arity {win} (inj={inj} a={ma} b={mb})"
+    st = c.body.statements[0]
+    tag = {"injected": "i", "later import": "b", "earlier import": "a"}[src]
+    if [p.name for p in st.gate_def.parameters] != [f"{tag}{k}" for k in range(nargs)]:
+        return f"call bound to the wrong definition ({[p.name for p in st.gate_def.parameters]}), expected the {src}"
+    if "gx" not in c.native_gates or c.native_gates["gx"] is not st.gate_def:
+        return "circuit.native_gates does not hold the winning definition"
+    return ""
